@@ -15,9 +15,11 @@ COMMON = {
 }
 TARGET = {"cdisc": ["CClientDisconnect"], "sdisc0": ["CServerDisconnect0"], "sdisc1": ["CServerDisconnect1"],
           "srvclose": ["CServerClose"]}
-# a socket of another namespace of the same connection: Disconnect(true) on the first socket takes it
-# through disconnectAll / c.close(); Server.Close only closes its session ("forced close")
-OTHER = {"cdisc": [], "sdisc0": [], "sdisc1": ["CServerDisconnect1", "CInvalidState"], "srvclose": ["CParseError"]}
+# a socket of another namespace of the same connection: a DISCONNECT packet for "/" that finds "/" not (or no
+# longer) in the connection's table is an invalid-state packet and closes the whole connection;
+# Disconnect(true) on the first socket takes the others through disconnectAll / c.close();
+# Server.Close only closes their session ("forced close")
+OTHER = {"cdisc": ["CInvalidState"], "sdisc0": [], "sdisc1": ["CServerDisconnect1", "CInvalidState"], "srvclose": ["CParseError"]}
 
 
 def model_causes(fired, target):
